@@ -598,6 +598,12 @@ def judge(what, case, obs, mod):
                 continue
         if model_failed and op[0] != "recalc":
             continue
+        if o["t"] == "exception" and "propagated" in o["x"] and "negative" in o["x"] and any(
+                abs(unbits(r_[2])) == 1.0 for r_ in (case.get("rho") or [])):
+            # two sources correlated with a factor of exactly +1 or -1: the variance of a result in
+            # which they cancel is exactly 0, the library's binary64 sum can come out at -1e-20, and it
+            # then refuses to take the root -- rounding at a singular correlation, not judged
+            return [], False, True
         if o["t"] == "exception":
             failures.append({"signature": "{}:exception:{}:{}".format(what, op[0], o["x"].split(":")[0]),
                              "what": "{} raised {}".format(where, o["x"]), "input": hist_str(case),
